@@ -593,7 +593,7 @@ Push(a, c) ==
     /\ "push" \in Kinds /\ a \in Pushers
     /\ heads[a] # c
     /\ heads' = [heads EXCEPT ![a] = c]
-    /\ Logged(Op(a, 0, "push", c, 0, 0), "applied")
+    /\ Logged(Op(a, 0, "push", c, heads[a], 0), "applied")     \* y = the head before the push
     /\ UNCHANGED <<issue, patch, ghost>>
 
 Next == IssueNext \/ PatchNext \/ (\E a \in Actor, c \in Commit \cup {0} : Push(a, c))
